@@ -81,12 +81,9 @@ def run_case(run, case_seed, tier):
         for round_no in (1, 2):
             outside0 = {d: snapshot(d) for d in sdirs + [os.path.join(box, "metas")]}
             dest0 = snapshot(dest)
-            raised = None
             with effects.traced() as tr:
-                try:
-                    impl.rebuild([m for m, _ in metas], sdirs, dest)
-                except Exception as exc:   # a crash is not a C14 violation; effects still judged
-                    raised = type(exc).__name__
+                _, raised = rb.rebuild_with_model(box, [m for m, _ in metas], sdirs, dest, DRV[0],
+                                                  dict(case, round=round_no))
             why = None
             for d in outside0:
                 if snapshot(d) != outside0[d]:
@@ -124,11 +121,17 @@ def run_case(run, case_seed, tier):
              classes=[f"v{t['version']}" for t in torrents] + pre + kinds)
 
 
+DRV = [None]
+
+
 def run(tier, seed, replay=None):
     impl.use_repo()
     run = Run("C14", tier, seed, RULE)
+    from harness.common import Driver
+    DRV[0] = Driver()
     seeds = [replay["case"]["case_seed"]] if replay else \
         [run.rng.randrange(10 ** 9) for _ in range(70 if tier == "quick" else 700)]
     for s in seeds:
         run_case(run, s, tier)
+    rb.settle_match(run, DRV[0].run())
     return run.finish()
